@@ -56,6 +56,17 @@ def universes(tier):
     mixed = [x for seq in itertools.product(vals, repeat=3) for x in seq]
     for bs in (None, 2):
         us.append(("mixed malformed bs={}".format(bs), mixed, {"batch_size": bs}, 3))
+    # a result table fed in again: rows carry the output columns of an earlier run (labels rotate, so they are mostly wrong)
+    labels = [(True, "mcs-based"), (True, "rule-based"), (False, None), (True, "input-balanced")]
+    stale = []
+    for i, r in enumerate(special):
+        sv, by = labels[i % 4]
+        stale.append({"reaction": r, "input_reaction": r, "solved": sv, "solved_by": by, "confidence": 0.9 if by == "mcs-based" else None,
+                      "issue": "" if sv else "old issue", "rules": []})
+        if i % 5 == 0:
+            stale.append({"reaction": r})
+    for bs in (None, 2):
+        us.append(("stale result rows bs={}".format(bs), stale, {"batch_size": bs, "threshold": 0.5}, 6))
     return us
 
 
@@ -65,8 +76,8 @@ def run(tier, seed):
     res.coverage["rule"] = (
         "every run (one rebalance call) over consecutive slices of the complete Rxn(A01,2) "
         "universe and of the hand-built/special families, thresholds {0,0.5,1} x batch sizes "
-        "{None,1,2,3}, single-row runs, thresholds equal to / just above every observed confidence, and every length-3 "
-        "sequence over 3 valid and 3 malformed rows.  Non-trivial = distinct statistics dictionaries observed."
+        "{None,1,2,3}, single-row runs, thresholds equal to / just above every observed confidence, every length-3 "
+        "sequence over 3 valid and 3 malformed rows, and result tables fed in again (rows carrying stale output columns).  Non-trivial = distinct statistics dictionaries observed."
     )
     res.coverage["samples"] = [us[0][1][:7], us[-1][1][:1]]
     res.assumptions = ["inputs are valid reactions (malformed rows are C05's)"]
